@@ -142,7 +142,7 @@ func sxStmt(b *strings.Builder, s pjs.IStmt) {
 		b.WriteString("N ")
 	case *pjs.BlockStmt:
 		sxList(b, "BL", x.List)
-	case *pjs.DoWhileStmt, *pjs.TryStmt, *pjs.ForInStmt, *pjs.DebuggerStmt:
+	case *pjs.DoWhileStmt, *pjs.TryStmt, *pjs.ForInStmt, *pjs.DebuggerStmt, *pjs.LabelledStmt:
 		b.WriteString("O " + hex.EncodeToString([]byte(s.String())) + " ")
 	default:
 		panic(unsupported{fmt.Sprintf("stmt %T", s)})
@@ -277,6 +277,9 @@ func (g *sgen) branch(d int) string {
 	case 5:
 		return "{" + g.list(d, 1+g.r.Intn(3)) + "}"
 	case 6:
+		if g.r.Intn(2) == 0 { // a labelled block that ends in a break to its own label: not a flow statement for its surroundings
+			return "l1:{" + g.effectSrc() + ";break l1}"
+		}
 		return "throw " + g.exprSrc(0) + ";"
 	default:
 		return g.stmt(d)
